@@ -188,6 +188,12 @@ def hbuff_prologue():
                 if (name != "none" and not has) or (name == "none" and not none):
                     bad.append(dict(add_suffix=suffix, filter=filt, init=init, deps=deps, width32=w32))
             res.append(ob("hbuff-prologue/%s, independent of the other options" % name, not bad, "same for all 32 settings", bad[:3] or "same"))
+        # ... and of what was converted before: a program without HBUFF gets no prologue after one with HBUFF
+        opaque.reset()
+        convert_ast(progs["top-level"], add_standard_prefix=True)
+        opaque.reset()
+        after = convert_ast(progs["none"], add_standard_prefix=True)
+        res.append(ob("hbuff-prologue/none, converted after a program with HBUFF", "dim pid: integer" not in after and "_ecb_init_hbuff" not in after, "no prologue", "prologue present" if "dim pid" in after else "absent"))
         return res
     return guarded("hbuff-prologue", run)
 
